@@ -21,7 +21,7 @@ ATOL = 1e-11
 RULE = ('objects: pardim 1-3, dim 2-3(4), rational with positive weights, open/periodic bases per direction, non-square shapes; '
         'parameters: knots, ends, span interiors, outside (ValueError), periodic points periods away; forms: grid lists, scalars, '
         'tensor=False, __call__, default control points (identity map), bounding box.  non-trivial = parameters inside the domain.')
-REQUIRED_TAGS = ['equal-weights-not-one', 'form=grid', 'form=scalar', 'form=pointwise', 'form=default', 'outside', 'rational', 'periodic-dir', 'pardim=1', 'pardim=2', 'pardim=3', 'form=bbox']
+REQUIRED_TAGS = ['form=mixed', 'mixed:pardim=3', 'equal-weights-not-one', 'form=grid', 'form=scalar', 'form=pointwise', 'form=default', 'outside', 'rational', 'periodic-dir', 'pardim=1', 'pardim=2', 'pardim=3', 'form=bbox']
 
 
 def _params(rng, o, n_per_dir, outside=False):
@@ -63,6 +63,16 @@ def generate(rng, tier):
         pw = _params(rng, o, n)
         m = min(len(p) for p in pw)
         specs.append({'form': 'pointwise', 'obj': o, 'params': [p[:m] for p in pw]})
+        if pardim >= 2:
+            # mixed scalar/list calling forms: every non-empty proper subset of directions scalar
+            import itertools
+            subsets = [c for r in range(1, pardim) for c in itertools.combinations(range(pardim), r)]
+            rng.shuffle(subsets)
+            for sc in subsets[:3 if pardim == 3 else 2]:
+                ps = _params(rng, o, 3)
+                for k in sc:
+                    ps[k] = ps[k][:1]
+                specs.append({'form': 'mixed', 'obj': o, 'params': ps, 'scalar_dirs': list(sc)})
         if rng.random() < 0.5:
             specs.append({'form': 'grid', 'obj': o, 'params': _params(rng, o, n, outside=True)})
         if rng.random() < 0.2:
@@ -104,6 +114,9 @@ def run_impl(sp, s):
     o = gen.mk_object(sp, s['obj'])
     if f == 'grid':
         return _shape_flat(o.evaluate(*s['params']))
+    if f == 'mixed':
+        args = [p[0] if k in s['scalar_dirs'] else p for k, p in enumerate(s['params'])]
+        return _shape_flat(o.evaluate(*args))
     if f == 'call':
         return _shape_flat(o(*s['params']))
     if f == 'pointwise':
@@ -210,7 +223,11 @@ def oracle(sp, s):
         if not np.allclose(diag, res, rtol=1e-10, atol=1e-12):
             fails.append('tensor=False result is not the diagonal of the grid')
         return fails
-    res = o.evaluate(*params) if f == 'grid' else o(*params)
+    if f == 'mixed':
+        args = [p[0] if k in s['scalar_dirs'] else p for k, p in enumerate(params)]
+        res = o.evaluate(*args)
+    else:
+        res = o.evaluate(*params) if f == 'grid' else o(*params)
     exp_shape = tuple(len(p) for p in params) + (o.dimension,)
     if all(len(p) == 1 for p in params):
         pass
@@ -253,6 +270,8 @@ def compare(s, iv, mv):
 
 def tags(s, res):
     out = ['form=' + ('grid' if s['form'] == 'call' else s['form'])]
+    if s['form'] == 'mixed':
+        out.append('mixed:pardim=%d' % len(s['params']))
     o = s.get('obj')
     bases = o['bases'] if o else s['bases']
     out.append('pardim=%d' % len(bases))
